@@ -102,6 +102,29 @@ func C02(c *core.Child) {
 			if r.Bool() { // nested in a struct with a sentinel after it
 				w = rc.Struct(rc.Field{ID: 1, V: w}, rc.Field{ID: 2, V: rc.I64(-2)})
 			}
+		case "bigpair":
+			// several binaries beyond the readers' 1 MiB staging size in ONE value,
+			// each with its own content: buffer reuse between them shows as one
+			// taking the bytes of another
+			sizes := []int{1<<20 + 1, 1<<20 + 4096, 1 << 21, 1<<20 - 1, 3 << 19}
+			mk := func() rc.W {
+				n := sizes[r.Intn(len(sizes))] + r.Intn(3)
+				b := make([]byte, n)
+				seed := r.Uint64()
+				for k := range b {
+					seed = seed*6364136223846793005 + 1442695040888963407
+					b[k] = byte(seed >> 56)
+				}
+				return rc.Binary(b)
+			}
+			switch r.Intn(3) {
+			case 0:
+				w = rc.W{T: rc.TList, VT: rc.TBinary, Items: []rc.W{mk(), mk(), rc.Binary([]byte("small")), mk()}}
+			case 1:
+				w = rc.Struct(rc.Field{ID: 1, V: mk()}, rc.Field{ID: 2, V: rc.I32(7)}, rc.Field{ID: 3, V: mk()})
+			default:
+				w = rc.W{T: rc.TMap, KT: rc.TBinary, VT: rc.TBinary, Items: []rc.W{mk(), mk(), mk(), mk()}}
+			}
 		case "big":
 			o := rc.DefaultGen
 			o.BigBin = true
